@@ -266,7 +266,7 @@ class Deconvolution1D(BayesianProblem):
             # instead of using the matrix-free representation. For 1D problems, there is
             # no need to use the matrix-free representation, since the matrix is small.
             Id = np.eye(dim)
-            A = np.array([Afun(Id[:, i]) for i in range(dim)])
+            A = np.array([Afun(Id[:, i]) for i in range(dim)]).T # column i is the operator applied to the i-th unit vector
             A = csc_matrix(A) # make it sparse
 
             model = cuqi.model.LinearModel(A, range_geometry=Continuous1D(dim), domain_geometry=Continuous1D(dim))  
